@@ -1484,5 +1484,39 @@ seed("c13-lmtp-data-returns-before-reset", "C13", "R-envelope-per-message", "con
 	defer c.reset()
 """, "an LMTP DATA message ends without reset(): the next message is answered for the earlier recipients as well")
 
+seed("c20-reset-callback-outside-lock", "C20", "R-reset-serialised-with-close", "conn.go",
+"""	c.bdatStatus = nil
+	c.bytesReceived = 0
+
+	if c.session != nil {
+		c.session.Reset()
+	}
+""", """	c.bdatStatus = nil
+	c.bytesReceived = 0
+	session := c.session
+	c.locker.Unlock()
+	if session != nil {
+		session.Reset()
+	}
+	c.locker.Lock()
+""", "Session.Reset is called with Conn.locker released: Server.Close can log the session out while, or before, it runs")
+seed("c12-disabled-param-counts-as-protocol-error", "C12", "R-protocol-error-sites", "conn.go",
+"""				c.writeResponse(504, EnhancedCode{5, 5, 4}, "SMTPUTF8 is not implemented")""",
+"""				c.protocolError(504, EnhancedCode{5, 5, 4}, "SMTPUTF8 is not implemented")""",
+  "a refused extension parameter counts towards the error threshold: the fourth one closes the connection")
+seed("c04-noop-counts-as-protocol-error", "C04", "R-protocol-error-sites", "conn.go",
+"""		c.writeResponse(252, EnhancedCode{2, 5, 0}, "Cannot VRFY user, but will accept message")""",
+"""		c.protocolError(252, EnhancedCode{2, 5, 0}, "Cannot VRFY user, but will accept message")""",
+  "a recognised command answered through protocolError: the fourth VRFY gets two replies")
+seed("c19-debug-tee-bypasses-limiter", "C19", "R-linelimit-layer", "conn.go",
+"""			io.TeeReader(rwc.Reader, c.server.Debug),""", """			io.TeeReader(c.conn, c.server.Debug),""",
+  "with a debug writer configured textproto reads from the socket directly: no line limit")
+seed("c16-limiter-lf-first-in-chunk", "C16", "R-linelimit-threshold", "lengthlimit_reader.go",
+"""		if chr == '\\n' {
+			r.curLineLength = 0
+		}""", """		if chr == '\\n' && r.curLineLength > 0 {
+			r.curLineLength = 0
+		}""", "an LF that is the first octet counted on a line does not reset the count")
+
 json.dump(S, open(os.path.join(os.path.dirname(os.path.abspath(__file__)), "bank.json"), "w"), indent=1)
 print(len(S), "seeds")
